@@ -1,10 +1,12 @@
 """C09 — counterfactual transportability (ctfTRu / ctfTR, Correa, Lee & Bareinboim 2022, Algorithms 2-4).
 
-Correspondence: the input validators (`_validate_transport_unconditional_counterfactual_query_input`,
-`_validate_transport_conditional_counterfactual_query_input`) and the district transport step (Algorithm 4's choice of a
-domain: no policy variable and no selection node on the district) are compared with the Lean model
-(Y0.Model.CtfTr) on every case; Algorithms 2/3 are modelled as a composition that is parametric in SIMPLIFY, the
-ctf-factor factorisation and Tian's IDENTIFY (owned by the `ctf` and `tian` families).
+Correspondence: the complete procedures are compared with the Lean model (Y0.Model.CtfTr) on every case: the verdict of
+the input validators (error category), and for accepted inputs FAIL / Zero / the answer of Algorithm 2 (`transport
+ctf_uncond`: expression and simplified event) resp. Algorithm 3 (`ctftr cond`: the derivation of D* from the ancestral
+components, Algorithm 2 on D* with its own validator, the Fraction of line 4, the returned event, the five final checks;
+crashes of the known findings included, as category `internal`).  Expressions are compared structurally, then by exact
+value on the case's model family; events as multisets.  The models of SIMPLIFY, the ctf-factor factorisation and Tian's
+IDENTIFY are the `ctf` and `tian` families'.
 
 Oracle (from the property statement, independent of y0 and of the model; harness/oracles/family_eval.py):
   (t) trichotomy: an input that passes the procedure's own validation is answered (expression + event) or refused
@@ -50,15 +52,28 @@ RULE = ("target ADMGs with 2-5 nodes x 1-2 domains (selection diagram = the targ
 ASSUMPTIONS = [
     "ctfTRu_sound / ctfTR_sound (value clause) are OPEN and false of the current code on the open findings' inputs: "
     "Props/C09 proves the composition skeleton only; the clause rests on the correspondence + exact functional-SCM oracle",
-    "the models of SIMPLIFY, counterfactual ancestors, ctf-factors and IDENTIFY are the `ctf` / `tian` families' (C19, C17); "
-    "Algorithm 3's derivation of D* and its line 4 are parameters of the model (only its validator and its call of "
-    "Algorithm 2 are modelled); the conditional procedure is covered by the oracle on the real code",
+    "the models of SIMPLIFY, counterfactual ancestors, ancestral components, ctf-factors and IDENTIFY are the `ctf` / `tian` "
+    "families' (C19, C17); Algorithm 3 is modelled completely (CtfTr.ctfTR: line2C, line4C, finalChecks) and compared with "
+    "conditional_cft on every conditional case (verdict, expression, returned event)",
+    "Python sets in Algorithm 3: the order of the derived event D* (iteration over a set of variables / of values) is a "
+    "canonical one in the model; it reaches the result only as a permutation (events are compared as multisets, Product.safe "
+    "and Sum ranges sort) and the VERDICT in two places: (a) Algorithm 2's transport loop stops at the first FAIL, so FAIL vs "
+    "exception can depend on the order of the ctf-factors (only with domain graphs that lack a bidirected edge of the target: "
+    "stream dropped_bi, not compared); (b) the dict of the final checks keyed by base name keeps the LAST of two entries of a "
+    "vertex named in two worlds, once with and once without a value (CtfTr.finalChecksOrderSensitive; the driver reports it "
+    "and then only the validator verdict is compared; never observed: such runs end in FAIL before line 4)",
     "ctf_no_internal_error: false of the current code on four crash classes (known findings); PROVED for the unconditional "
     "procedure outside them (ctfTRu_no_internal_error_partial: validated input, no self-intervened variable together with a "
     "valueless variable, plain event variables as built by the public wrapper, every domain graph keeps the target's "
     "bidirected edges between non-policy variables and has no bidirected edge at a selection node => answer or FAIL, no "
-    "error); OPEN for Algorithm 3 (its derivation of D* and line 4 are parameters of the model); the oracle reports "
-    "every exception after validation",
+    "error); for Algorithm 3 PROVED outside its crash classes (ctfTR_no_internal_error_partial: validated input, plain query "
+    "variables, DomainsAgree, and "
+    "three decidable predicates on the input: OutcomesFound = every outcome is found in the ancestral components under its own "
+    "name, DstarOneWorld = D* names each vertex in one world, OutcomeNotCondition = no outcome shares its vertex with a "
+    "condition; the facts about Algorithm 2's expression Q - never Zero(), only graph vertices and variables of the domain "
+    "distributions - are proved: ctfTR_q_good). FALSE without OutcomesFound (known findings; Lean witness a3Miss); OPEN "
+    "whether DstarOneWorld / OutcomeNotCondition are needed (no exception was ever observed with OutcomesFound true); the "
+    "oracle reports every exception after validation",
     "failures on inputs with the syntactic signature of an open finding AND its kind of outcome (wrong value / wrong zero / "
     "exception class at a named check) are attributed to that finding by class key (17 keys; signature computed on the "
     "minimised query with the harness's own graph code); a different defect that only shows on such inputs with the same "
@@ -632,8 +647,8 @@ MODEL_READY = True
 
 
 def request(case):
-    """the model decides the validators (error class) and, for accepted inputs, nothing more is compared here: the
-    expression-valued part of Algorithms 2/3 is parametric in the `ctf`/`tian` families' models"""
+    """the model decides the complete procedure: validator verdict (error category), and for accepted inputs FAIL /
+    Zero / the expression and the returned event of Algorithm 2 (`transport ctf_uncond`) resp. Algorithm 3 (`ctftr cond`)"""
     if not MODEL_READY:
         return None
     mal = case.get("malformed")
@@ -652,7 +667,7 @@ def request(case):
                      d["policy"]])
     if case["kind"] == "uncond":
         return C.enc(["transport", "ctf_uncond", gs, doms, case["event"]])
-    return C.enc(["transport", "ctf_validate_c", gs, doms, case["outcomes"], case["conditions"]])
+    return C.enc(["ctftr", "cond", gs, doms, case["outcomes"], case["conditions"]])
 
 
 class _Out(list):
@@ -693,7 +708,13 @@ class _Out(list):
 
 def canon_model(case, rep):
     if case["kind"] == "cond":
-        return _Out(["valid-only", "invalid" if (rep[0] == "err" and rep[1] == "invalid") else "accepted"])
+        # (ok <order-sensitive> <answer>): the answer of the complete Algorithm 3
+        order_sensitive, rep = rep[1] == "true", rep[2]
+        if order_sensitive:
+            # the verdict of Algorithm 3's final checks depends on which of two entries of a Python dict comprehension
+            # over a set-ordered list wins (CtfTr.finalChecksOrderSensitive): only the validator's verdict is compared
+            _Out.stats["order_sensitive"] = _Out.stats.get("order_sensitive", 0) + 1
+            return _Out(["valid-only", "invalid" if (rep[0] == "err" and rep[1] == "invalid") else "accepted"])
     if rep[0] == "err":
         return _Out(["err", "invalid" if rep[1] == "invalid" else "internal"])
     if rep[0] == "fail":
@@ -902,24 +923,29 @@ def finding_key(case, res):
 MANIFEST = {
     "text": ("Partial. Lean theorems about the model Y0.Model.CtfTr of api.py (validators of ctfTRu / ctfTR as decision "
              "functions, Algorithm 4, Algorithm 2 composed from the `ctf` family's models of SIMPLIFY / counterfactual "
-             "ancestors / ctf-factors and the `tian` family's model of IDENTIFY; Algorithm 3 with its bookkeeping steps as "
-             "parameters), 31 theorems in Props/C09: the validators reject with the documented classes only and an accepted "
+             "ancestors / ancestral components / ctf-factors and the `tian` family's model of IDENTIFY; Algorithm 3 complete: "
+             "derivation of D*, Algorithm 2 on it, line 4 and the five final checks), 40 theorems in Props/C09: the validators reject with the documented classes only and an accepted "
              "input has the stated shape (validateU_error_class, validateC_error_class, validateU_accepts, validateC_strict); "
              "an 'invalid input' outcome is exactly a rejection by the procedure's own validator and an accepted input is "
              "answered, refused, or ends in a non-validation error (ctfTRu_invalid_iff, ctfTRu_trichotomy, "
-             "ctfTR_trichotomy); Zero() is returned exactly when SIMPLIFY finds the event inconsistent, and then - for events "
+             "ctfTR_invalid_iff, ctfTR_trichotomy); an answer of Algorithm 3 is Fraction(Sum.safe(Q, A), Sum.safe(Q, B)) with "
+             "A a subset of B, its event is the outcomes plus a sub-list of the conditions with the query's values, and Zero() "
+             "comes only from SIMPLIFY on D* (ctfTR_answer_shape, ctfTR_event_shape, ctfTR_zero_only_from_simplify); Zero() is returned exactly when SIMPLIFY finds the event inconsistent, and then - for events "
              "without a self-intervened variable - the event has probability 0 in every compatible functional SCM "
              "(ctfTRu_zero_only_from_simplify, ctfTRu_zero_of_simplify, ctf_zero_sound_partial via C19); the returned event is "
              "SIMPLIFY's output and every ctf-factor is transported from a domain with no policy variable and no selection "
              "node on its district (ctfTRu_event_is_simplified, sigmaTR_uses_usable_domain, transportFactors_all); outside the "
              "known crash classes the unconditional procedure never raises (ctfTRu_no_internal_error_partial with "
-             "simplify_no_error_outside_risk, line2_total, sigmaTRDomain_no_error, transportFactors_no_error), and an "
+             "simplify_no_error_outside_risk, line2_total, sigmaTRDomain_no_error, transportFactors_no_error), the conditional procedure never raises outside its "
+             "crash classes (ctfTR_no_internal_error_partial: outcomes found in the ancestral components under their own name, "
+             "one world in D*, no outcome that is also a condition; with ctfTR_q_good: the expression Q of Algorithm 2 is never "
+             "Zero() and mentions only graph vertices and variables of the domain distributions), and an "
              "expression returned by Algorithm 4 denotes Q[district] of the domain's model (sigmaTR_sound, via C17 "
              "cfactor_sound / tian_sound). NOT "
              "proved, and FALSE of the current code on the inputs of the 17 open findings (known_findings.jsonl, class keys "
              "with minimal witnesses): the value clause (ctfTRu_sound / ctfTR_sound) and the absence of non-validation errors "
-             "(ctf_no_internal_error in full: Algorithm 3, and the four crash classes). These clauses are decided on every run by the correspondence (validators exact; "
-             "Algorithm 2: verdict, simplified event and exact value of the expression) and by the exact functional-SCM "
+             "(ctf_no_internal_error in full: false on the crash classes of the findings, open on two further input classes of Algorithm 3). These clauses are decided on every run by the correspondence (validators exact; "
+             "Algorithms 2 and 3: verdict, returned event and exact value of the expression) and by the exact functional-SCM "
              "oracle (noise-space enumeration of P*(event), policies as fresh mechanisms): trichotomy, zero-soundness and "
              "value on every answered case."),
     "note": ("Trusted: Lean kernel; axioms propext/Classical.choice/Quot.sound; the hand-written models (this family's CtfTr, "
